@@ -15,6 +15,10 @@ def run(chk, tier):
     ghaz.exception_escape(chk, caught)
     ghaz.check_include_recursion(chk)
     ghaz.check_header_lookup_siblings(chk)
+    # the invariants of rules/haz_invariants.json are established by validator checks that sit behind memo guards
+    # ("this header type was validated already"): those hold only while each memo cache belongs to one validator
+    import gguard
+    gguard.check_memo_caches(chk)
     gtpl.check(chk)
     gtab.check(chk, gen.facts(), which=("keys",))
     root, results = schemas.generate_all()
@@ -33,6 +37,7 @@ def run(chk, tier):
                      "literals (or forwarded parameters) and every replacement field is bound. main: handlers cover "
                      "std::exception and return non-zero; validators precede the compiler (no files for a rejected schema). "
                      "Recursion through <include> needs a visited-set test. Sibling rule: the three header-member lookups "
-                     "resolve <ref>. Undefined behaviour in general, pugixml internals, memory exhaustion and hangs outside "
+                     "resolve <ref>. G-CACHE: a validator's `already validated` cache is filled by that validator only, so a check "
+                     "that establishes an invariant is not skipped for an entity validated in another role. Undefined behaviour in general, pugixml internals, memory exhaustion and hangs outside "
                      "these shapes are not decided."),
         rule_text="instances = hazard call sites, format calls, table key sets, main handlers")
